@@ -17,6 +17,8 @@ structure PwRes where
 deriving DecidableEq, Repr
 
 inductive SvcErr | nf | cf | inv | int
+  | nohandle      -- harness: no session object is held for that key
+  | unsupported   -- harness: `renew` is only driven with the production session store (configuration A)
 deriving DecidableEq, Repr
 
 /-- hash variants of pkg/crypt/algorithm/influxdb2 -/
@@ -57,6 +59,9 @@ inductive Op
   | dt (id : Nat)
   | cs (name : String) (long : Bool)
   | xs (key : String)
+  /-- RenewSession with the (possibly stale) session object the harness kept from CreateSession of `key`;
+      `far`: new expiry = now + 2 h (extends a 1 h session), else now + 5 min (the middleware's value; does not) -/
+  | renew (key : String) (far : Bool)
   | req (hdr cookie : Option String)
   /-- hash `pw` with variant `v`, damage the encoded digest, decode it with a decoder that knows
       `decoders`, match `q` against it (authorization.AuthorizationHasher Hash / Match) -/
